@@ -63,7 +63,7 @@ deriving DecidableEq, Repr
 def isNaN (bits : Nat) : Bool := (bits / 2 ^ 23) % 256 == 255 && bits % 2 ^ 23 != 0
 
 /-- float32 bit pattern `< 1.0f`; NaN compares false -/
-def floatLtOne (bits : Nat) : Bool :=
+def floatNotGeOne (bits : Nat) : Bool :=
   if isNaN bits then false
   else if bits / 2 ^ 31 % 2 == 1 then true
   else decide (bits < bitsOneF)
@@ -133,7 +133,7 @@ def loadBinary (req : Request) (size : Params â†’ Option Nat) (bound : Params â†
   | .notBinary => .arpa
   | .err e => .error e
   | .header f =>
-    if floatLtOne f.multBits then .error .format
+    if floatNotGeOne f.multBits then .error .format
     else if isNaN f.multBits && readHeaderRejectsNaN then .error .format
     else
       match readCounts f.order (file.drop (sizeofSanity + sizeofFixed)) with
